@@ -80,14 +80,13 @@ def check_formatfield(world, ctx):
     if rs is None:
         raise AnalysisError('L-PRIM', 'construct/core.py:_read_stream', 'not found')
     # structure: data = stream.read(length); if len(data) != length: raise FieldError
-    has_check = False
-    for n in ast.walk(rs.node):
-        if isinstance(n, ast.If):
-            t = ast.unparse(n.test).replace(' ', '')
-            if t in ('len(data)!=length', 'length!=len(data)') and any(isinstance(b, ast.Raise) for b in n.body):
-                r = [b for b in n.body if isinstance(b, ast.Raise)][0]
-                if r.exc is not None and 'FieldError' in ast.unparse(r.exc):
-                    has_check = True
+    from . import paths as _paths, expr as _expr
+    _env = _expr.FEnv(rs.node, inline=False)
+    short = [p for p in _paths.func_paths(rs.node) if p.end[0] == 'raise' and
+             _expr.Facts(_expr.CP(_expr.cond_str(t, _env), pol) for t, pol in p.conds()).get(_expr.spec_cond('len(data) != length')) is True]
+    full = [p for p in _paths.func_paths(rs.node) if p.end[0] == 'return' and
+            _expr.Facts(_expr.CP(_expr.cond_str(t, _env), pol) for t, pol in p.conds()).get(_expr.spec_cond('len(data) != length')) is not False]
+    has_check = len(short) >= 1 and all(p.end[1] is not None and 'FieldError' in ast.unparse(p.end[1]) for p in short) and not full
     ctx.ob('L-PRIM', 'construct/core.py:_read_stream', 'short read raises FieldError', has_check,
            msg='_read_stream does not raise FieldError when fewer bytes than requested are read', line=rs.node.lineno)
 
